@@ -289,6 +289,56 @@ Section Solver.
       end
     end.
 
+  (* ---------------------------------------------------------- interpolation *)
+  (* strategy.interpolate_fwd: (interpolated, step_from, interp_from) *)
+  Definition strat_interpolate_fwd (s : shape) (st : strat) (p0 p1 : post)
+             (tr_0t tr_t1 : fcond) : option (post * post * post) :=
+    match st with
+    | Filter =>
+      match predict s Filter p0 tr_0t with
+      | None => None
+      | Some ip => Some (ip, p1, ip)
+      end
+    | FixedPoint =>
+      match predict s FixedPoint p0 tr_0t with
+      | None => None
+      | Some ext_t =>
+        let previous_new := mkPost (p_marg ext_t) (f_identity s) in
+        match predict s FixedPoint previous_new tr_t1 with
+        | None => None
+        | Some ext_t1 =>
+          Some (mkPost (p_marg ext_t) (p_cond ext_t),
+                mkPost (p_marg p1) (p_cond ext_t1),
+                previous_new)
+        end
+      end
+    | FixedInterval =>
+      match predict s FixedInterval p0 tr_0t with
+      | None => None
+      | Some sol_t =>
+        match predict s FixedInterval sol_t tr_t1 with
+        | None => None
+        | Some ext_t1 =>
+          Some (sol_t, mkPost (p_marg p1) (p_cond ext_t1), sol_t)
+        end
+      end
+    end.
+
+  (* ProbabilisticSolver.interpolate_fwd: the output scale of the right state
+     is used for both sub-transitions *)
+  Definition interpolate_fwd (cf : config) (st0 st1 : sstate) (t : F)
+    : option (sstate * sstate * sstate) :=
+    let s := cf_shape cf in
+    let tr_0t := transition s (cf_base2 cf) (t - st_t st0) (st_out2 st1) in
+    let tr_t1 := transition s (cf_base2 cf) (st_t st1 - t) (st_out2 st1) in
+    match strat_interpolate_fwd s (cf_strat cf) (st_post st0) (st_post st1) tr_0t tr_t1 with
+    | None => None
+    | Some (ip, sf, ifr) =>
+      Some (mkSt t (p_marg ip) ip (st_out2 st1) (st_run2 st1) (st_ndata st1) (st_nsteps st1) (st_fx st1),
+            mkSt (st_t st1) (st_u st1) sf (st_out2 st1) (st_run2 st1) (st_ndata st1) (st_nsteps st1) (st_fx st1),
+            mkSt t (st_u st0) ifr (st_out2 st0) (st_run2 st0) (st_ndata st0) (st_nsteps st0) (st_fx st0))
+    end.
+
   (* ---- finalisation ---- *)
   Definition f_rescale (s : shape) (sc2 : list F) (rv : fnormal) : fnormal :=
     map2 (fun c r => n_rescale (sh_N s) c r) sc2 rv.
